@@ -125,7 +125,15 @@ def make_source(rnd):
         return 'bytes', bytes(rnd.randrange(256) for _ in range(rnd.randrange(0, 120)))
     if c < 0.16:
         return 'nested', nested(rnd)
-    p, argv, W, kind = progs.draw(rnd)
+    k = rnd.random()
+    if k < 0.15:
+        from .c16 import G16
+        p = G16(rnd).build()
+    elif k < 0.25:
+        from .c08 import G8
+        p = G8(rnd, 2).build()
+    else:
+        p, argv, W, kind = progs.draw(rnd)
     if c < 0.46:
         try:
             return 'illtyped', render.program(illtype(rnd, p))
